@@ -1,6 +1,6 @@
 (* C26 wire functions.
    input : VL [VZ mode; VL [VL [VB name; VB value]; ...]]   (mode: 0 GET no body, 1 POST + 3-byte body, 2 POST + chunked
-           body, 3 GET + empty chunked body; pairs = the client's header lines after "Host: example.org")
+           body, 3 GET + empty chunked body, 4 HTTP/1.0 GET no body; pairs = the client's header lines after "Host: example.org")
    output: VL [VB line; ...] header lines the backend received (wire order, request line dropped), or VErr status when
            BFE answered itself and nothing reached the backend. *)
 From Coq Require Import List ZArith Bool.
